@@ -46,7 +46,8 @@ Definition F_sig_action_nospot := 23%N. (* ... cast without spotlights *)
 Definition F_hup_leader_sig := 24%N.    (* a spotlight whose leader ignores SIGHUP, play ended by a signal *)
 Definition F_sig_cleanup1 := 25%N.      (* SIGINT / SIGTERM while the initial cleanups (2 s) are running *)
 Definition F_setsid := 26%N.            (* a spotlight's descendant in another session holds its output pipe *)
-Definition F_two_sigints := 27%N.       (* a never-ending action, SIGINT, a second SIGINT 2 s later *)   (* -S foul during a long action, chatty spotlight *)
+Definition F_two_sigints := 27%N.       (* a never-ending action, SIGINT, a second SIGINT 2 s later *)
+Definition F_read_stdin := 28%N.        (* shakespeare's stdin stays open; cleanups, actions, a spotlight read theirs *)   (* -S foul during a long action, chatty spotlight *)
 Definition is_hang (f : N) : bool := (13 <=? f)%N && (f <=? 19)%N.
 
 Definition rows_n (n : Z) (rows : list (Z * Z * Z * Z)) : list (Z * Z * Z * Z) :=
@@ -102,7 +103,7 @@ Definition in_time (c : fcase) (t : Z) : bool := (0 <? t) && (t + 500000000 <? n
 Definition status_due (c : fcase) : option bool :=
   let f := f_fault c in
   if (f =? F_none)%N || (f =? F_hup_leader)%N || (f =? F_hup_child)%N || (f =? F_hup_bg)%N || (f =? F_graceful)%N
-     || (f =? F_setsid)%N then Some true
+     || (f =? F_setsid)%N || (f =? F_read_stdin)%N then Some true
   else if (f =? F_action_fails)%N || (f =? F_clean_fails_1)%N || (f =? F_clean_fails_2)%N then Some false
   else if (f =? F_spot_fails)%N || (f =? F_foul_S)%N || (f =? F_expr)%N || (f =? F_expr_S)%N then
     (if in_time c (f_mark c) then Some false else None)
@@ -178,7 +179,7 @@ Definition labels_of (f : N) : bool * list label :=
              LFinP false ENil; LPick CP; LPick CS; LPick CA; LFin CK ENil; LPick CK; LDefer false; LCleanup2 true])
   else if (f =? F_sig_cleanup1)%N then
     (false, [LQuiesce; LCleanup1 true; LFinP false ENil; LPick CP] ++ tail_ok ++ [LDefer false; LCleanup2 true])
-  else if (f =? F_setsid)%N then
+  else if (f =? F_setsid)%N || (f =? F_read_stdin)%N then
     (false, [LCleanup1 true; LScene; LScene; LScene; LFinP true ENil; LPick CP] ++ tail_ok ++ [LDefer false; LCleanup2 true])
   else if (f =? F_two_sigints)%N then
     (true, [LCleanup1 true; LQuiesce; LFin CS ENil; LFin CA ENil; LFin CK ENil; LPick CS])
